@@ -59,8 +59,12 @@ pub fn exec(ctx: &mut Ctx, op: &str, p: &mut Toks) -> String {
             let sh = p.shape();
             let lo = p.flt();
             let hi = p.flt();
+            // a request the function refuses (a shape kind it does not initialise), on this thread and on a worker that dies
+            // with it, comes first: the valid request after it is served like any other
+            let _ = try_run(|| neurons::tensor::Tensor::random(neurons::tensor::Shape::Quintuple(1, 1, 1, 1, 1), lo, hi));
+            let _ = std::thread::spawn(move || { let _ = std::panic::catch_unwind(|| neurons::tensor::Tensor::random(neurons::tensor::Shape::Nested(2), lo, hi)); }).join();
             let res = try_run(|| neurons::tensor::Tensor::random(sh.clone(), lo, hi));
-            let input = format!("Tensor::random({}, {:e}, {:e})", shape_tok(&sh), lo, hi);
+            let input = format!("Tensor::random({}, {:e}, {:e}) after a refused request", shape_tok(&sh), lo, hi);
             match res {
                 Some(t) => {
                     // the rendered tensor starts with the recorded shape and the actual nested extents
